@@ -430,7 +430,7 @@ func outputChecks(sink *vc.Sink, mode string, lr *vc.LoadResult, bad map[string]
 	return files
 }
 
-func passG(repo string, cfg *vc.SolverConfig, only, corpus, scratch string) (*vc.PassResult, error) {
+func passG(repo string, cfg *vc.SolverConfig, only, corpus, scratch string, thorough bool, seed int64) (*vc.PassResult, error) {
 	start := time.Now()
 	res := &vc.PassResult{Pass: "G", Ungenerated: map[string]string{}, Extra: map[string]any{}}
 	if corpus == "" {
@@ -448,6 +448,15 @@ func passG(repo string, cfg *vc.SolverConfig, only, corpus, scratch string) (*vc
 	sink := vc.NewSink("G")
 	const modPrefix = "go.uber.org/cff/internal/tests"
 
+	if thorough {
+		// seeded random directive programs join the corpus
+		rdir := filepath.Join(scratch, "randcorpus")
+		if err := writeRandomCorpus(filepath.Join(rdir, fmt.Sprintf("rand%d", seed)), seed, 14, 8); err != nil {
+			return nil, err
+		}
+		corpus = corpus + "," + rdir
+		res.Extra["random_corpus"] = fmt.Sprintf("seed %d: 14 flows, 8 parallels", seed)
+	}
 	g, err := generate(repo, filepath.Join(scratch, "base"), corpus, "base", nil)
 	if err != nil {
 		if g == nil {
@@ -513,6 +522,21 @@ func passG(repo string, cfg *vc.SolverConfig, only, corpus, scratch string) (*vc
 			return nil, fmt.Errorf("cannot load the generated corpus (%s): %v", v.name, err)
 		}
 		outputChecks(sink, v.name, lrv, badv, directives, modPrefix)
+		if thorough && v.name == "auto-instrument" {
+			xv := vc.NewExec(ctx, lrv.Prog, sink)
+			xv.RegisterStdModels()
+			gv2 := &gpass{x: xv, lr: lrv, roles: roleSpecs, res: res, only: only, roleCount: gp.roleCount, flagSeen: gp.flagSeen, testsDir: vtests}
+			gv2.configure()
+			gv2.registerWrapperModels()
+			for _, w := range findWrappers(lrv, modPrefix) {
+				gv2.verifyWrapper(w)
+				for _, jc := range w.closures {
+					if jc.role != "unrecognised" {
+						gv2.verifyClosure(w, jc)
+					}
+				}
+			}
+		}
 		if v.name == "source-map" {
 			compareTokens(sink, tests, vtests)
 		}
